@@ -690,8 +690,27 @@ Definition viol_events (p : pred) (cfg : config) (t : trace) : trace :=
 (* ---------- trace-level projections and the comparison engine over them ---------- *)
 Definition tproj := config → trace → trace.
 Definition lift (π : proj) : tproj := λ _ t, map π t.
-Definition diff_trace_t (cfg : config) (π : tproj) (impl : trace) : list mismatch :=
-  diff_events pi_full 0 (π cfg impl) (π cfg (run cfg (map ev_op impl))).
+(* events on which a property's projection is not comparable because ANOTHER property's subject decides what
+   happens (the pair of unprojected events is looked at): they are skipped by the comparison *)
+Definition skipper := event → event → bool.
+Definition no_skip : skipper := λ _ _, false.
+Fixpoint mask (sk : skipper) (impl model pa pb : trace) : trace * trace :=
+  match impl, model, pa, pb with
+  | a :: impl', b :: model', x :: pa', y :: pb' =>
+      let '(ra, rb) := mask sk impl' model' pa' pb' in
+      if sk a b then (blank x :: ra, blank y :: rb) else (x :: ra, y :: rb)
+  | _, _, _, _ => (pa, pb)
+  end.
+Definition diff_trace_t (cfg : config) (π : tproj) (sk : skipper) (impl : trace) : list mismatch :=
+  let model := run cfg (map ev_op impl) in
+  let '(pa, pb) := mask sk impl model (π cfg impl) (π cfg model) in
+  diff_events pi_full 0 pa pb.
+(* whether a custom message is within the size limit is C14's subject: the other properties do not compare a
+   custom-message event on which implementation and model disagree about TOO_LARGE *)
+Definition too_large_ev (e : event) : bool :=
+  existsb (λ d : delivery, match snd d with MError _ k => k =? E_TOO_LARGE | _ => false end) (ev_outs e).
+Definition skip_limit : skipper :=
+  λ a b, match ev_req a with Some (RCustom _ _ _) => negb (Bool.eqb (too_large_ev a) (too_large_ev b)) | _ => false end.
 Definition pi_C03 : tproj := viol_events P_C03.
 Definition pi_C17 : proj := pi_full.
 Definition run_P_C17_pair (cfg : config) (t0 tF : trace) : list violation := P_C17_pair cfg 0 t0 tF.
